@@ -64,6 +64,14 @@ TREE = {
     "chain_a.py": "from chain_b import deep\n",
     "chain_b.py": "from chain_c import deep\n",
     "chain_c.py": "def deep(x):\n    return ('chain_c.deep', x)\n",
+    # re-exports under another name: swapped, shadowing another export, chained, module aliases
+    "swap.py": "from legacy import parse as load, load as parse\n",
+    "compat.py": "from legacy import load as old_load, parse as load\n",
+    "compat_rev.py": "from legacy import parse as load, load as old_load\n",
+    "rename_chain.py": "from swap import load as fetch\nfrom compat import old_load as fetch_old\n",
+    "modalias.py": "import legacy as backend\nimport modern as legacy_like\n",
+    "relpkg/__init__.py": "from .inner import value as exported, other as value\n",
+    "relpkg/inner.py": "def value(x):\n    return ('inner.value', x)\n\n\ndef other(x):\n    return ('inner.other', x)\n",
 }
 CLIENTS = {
     "star_two": "from legacy import *\nfrom modern import *\nprint(parse(1), load(2))\n",
@@ -81,6 +89,14 @@ CLIENTS = {
                              "def h():\n    import datetime\n    return datetime.date(2020, 1, 2).day\n\n\nprint(f(), g(), h())\n"),
     "guarded": ("try:\n    import json as serializer\nexcept ImportError:\n    serializer = None\nif serializer:\n    import os as operating\nelse:\n    operating = None\n"
                 "print(serializer.dumps([1]), operating.sep == '/')\n"),
+    "swap": "from swap import load, parse\nprint(load(1), parse(2))\n",
+    "compat": "from compat import load, old_load\nprint(load(1), old_load(2))\n",
+    "compat_rev": "from compat_rev import load, old_load\nprint(load(1), old_load(2))\n",
+    "compat_one": "from compat import load\nprint(load(1))\n",
+    "rename_chain": "from rename_chain import fetch, fetch_old\nprint(fetch(1), fetch_old(2))\n",
+    "modalias": "from modalias import backend, legacy_like\nprint(backend.load(1), legacy_like.load(2))\n",
+    "relpkg": "from relpkg import exported, value\nprint(exported(1), value(2))\n",
+    "alias_of_alias": "from compat import load as ld\nfrom swap import parse as ps\nprint(ld(1), ps(2))\n",
     "toplevel_then_local": "import legacy\n\n\ndef f():\n    import legacy as lg\n    from legacy import load as ld\n    return lg.parse(1), ld(2), legacy.load(3)\n\n\nprint(f())\n",
 }
 RULES = ["format_code", "tracing.fix_starred_imports", "tracing.fix_reimported_names", "fixes.remove_unused_imports", "fixes.fix_duplicate_imports", "fixes.sort_imports",
@@ -104,7 +120,7 @@ json.dump(out, sys.stdout)
 
 def tree_oracle(ctx):
     s = Suite("package-tree", kind="oracle")
-    known_bad = {("dotted", "fixes.remove_unused_imports"), ("dotted", "format_code")}
+    known_bad = set()
     d = Path(tempfile.mkdtemp(prefix="c18_"))
     try:
         for rel, text in TREE.items():
